@@ -180,16 +180,19 @@ def jobs(tier, seed):
     tspec = {n: {"alphabet": TYPO_QUICK} for n in "abcdefgh"}
     for mode in ("smartquotes", "replacements", "both"):
         jobs.append({"harness": "typo", "params": {"mode": mode, "scaffold": ["\"", H("a"), "\" 'd' xy\n"], "spec": tspec, "quotes": None, "name": f"{mode}-free"},
-                     "weight": 8, "cpu_cap": 2400, "wall_cap": 3600, "path_cap": 120})
+                     "weight": 8, "cpu_cap": 2400, "wall_cap": 3600, "path_cap": 300})
         for si, sc in enumerate(SCAFFOLDS):
             if mode == "both" and si != 4:
                 continue
             if si % 2 == 1 or (mode == "replacements" and si in (0, 4)) or si == 8:
                 continue  # scaffold 8 (dash/ellipsis runs): CrossHair's regex model disagrees with the interpreter on the look-ahead patterns
             sc2 = [("x" if p == H("b") else p) for p in sc]
+            if si == 4:
+                sc2 = ["\\\"", H("a"), " \"z\" &quot;\n"]  # shorter form of the escape/entity scaffold (the long one exceeds 120 CPU-s per path)
             symq = False  # symbolic quote characters: thorough tier
-            jobs.append({"harness": "typo", "params": {"mode": mode, "scaffold": sc2, "spec": tspec, "quotes": "chars" if symq else None, "name": "ctx"},
-                         "weight": 5, "cpu_cap": 2400, "wall_cap": 3600, "path_cap": 120})
+            sp_ = tspec if si != 4 else {n: {"alphabet": "\"'a "} for n in "abcdefgh"}  # 4 characters here: ~70 CPU-s per path
+            jobs.append({"harness": "typo", "params": {"mode": mode, "scaffold": sc2, "spec": sp_, "quotes": "chars" if symq else None, "name": "ctx"},
+                         "weight": 9 if si == 4 else 5, "cpu_cap": 3000, "wall_cap": 4000, "path_cap": 300})
     for ql in (["<<", ">>", "", ""], ["", "", "'", "''"], ["„", "“", "‚", "‘"]):
         jobs.append({"harness": "typo", "params": {"mode": "smartquotes", "scaffold": ["\"", H("a"), "\" 'b' \"c\"\n"], "spec": tspec, "quotes": "list",
                                                     "quote_list": ql, "name": "list-form"}, "weight": 6, "cpu_cap": 2400, "wall_cap": 3600, "path_cap": 120})
